@@ -342,6 +342,19 @@ def c02(tier, seed):
     return out + random_scripts("c02", tier, seed, 60, 2000, flags={"nofailfile": "true"}, tag={"kind": "random", "ctx": "random", "pos": "random"})
 
 
+def c02_deadline(tier, seed):
+    """A test case that falsifies the property slowly, close to the test deadline (MakeCheck under a real *testing.T, harness started
+    with -test.timeout): whatever Check decides about stopping early, an executed falsifying test case must fail the test."""
+    rng = random.Random(seed + 2)
+    out = []
+    for kind in ("fatalf", "errorf", "panic"):
+        slow_fail = [op("nth", text="slow", n=1, body=[op("sleep", ms=6000)]), op(kind, site=1)]
+        out.append(scenario("c02-deadline-%s" % kind, {"keyed": True, "cases": {"6": slow_fail}, "default": [draw(g("Bool"), "d")]},
+                            {"checks": 100, "seed": rng.randrange(1, 1 << 64), "nofailfile": "true", "shrinktime": "0s"}, entry="makecheck",
+                            name="TestDeadline", tag={"kind": kind, "ctx": "slow case near the test deadline", "pos": "6th", "deadline": True}))
+    return out
+
+
 # ---------------------------------------------------------------------------
 # C11: all sequences of per-case behaviours (the T object is reused across them)
 
